@@ -76,10 +76,10 @@ def run_pair(sh, case, root, timeout):
     d = R.fresh_dir(root)
     try:
         R.materialize(case, d)
-        ref = R.run_ref(d, sh.alarm, timeout)
+        ref = R.run_ref(d, R.deadline, timeout)
         if ref[0] in ("INVALID", "REFERR", "TIMEOUT"):
             return {"skip": "ref_" + ref[0].lower(), "log": ref[2]}
-        sf = R.run_sf(d, sh.alarm, timeout)
+        sf = R.run_sf(d, R.deadline, timeout)
         if sf[0] == "TIMEOUT":
             return {"skip": "sf_timeout", "log": sf[2]}
         out = {"ref": ref[0], "ref_kind": ref[1] if ref[0] == "FAIL" else None, "sf": sf[0], "sf_log": sf[2],
@@ -213,7 +213,7 @@ def classify(sh, case, res, rerun):
 # ----------------------------------------------------------------------------- one case, end to end
 def run_case(sh: Shard, case, hist=None, shrink_budget=None):
     root = sh.scratch
-    timeout = sh.pick(150, 300)
+    timeout = int(sh.pick(150, 300) * _scale())
     res = run_pair(sh, case, root, timeout)
     hist = hist if hist is not None else {}
 
